@@ -112,6 +112,26 @@ func (env *SpecEnv) btreeSpec(name string, n *ast.CallExpr) (SV, bool) {
 			panic("spec: " + err.Error())
 		}
 		return intSV(e.typeID(t)), true
+	case "errmsg":
+		return &Scalar{T: errMsg(env.eval(n.Args[0]).(*IfaceV)), Ty: types.Typ[types.String]}, true
+	case "contains":
+		return boolSV(app(SBool, "str.contains", scal(env.eval(n.Args[0])), scal(env.eval(n.Args[1])))), true
+	case "sprintf":
+		ts := []*Term{}
+		sorts := []string{}
+		for _, a := range n.Args {
+			var ls []*Term
+			leaves(env.eval(a), &ls)
+			for _, l := range ls {
+				ts = append(ts, l)
+				sorts = append(sorts, l.Sort)
+			}
+		}
+		name := "ext.sprintf"
+		for _, s := range sorts[1:] {
+			name += "." + sanitize(s)
+		}
+		return &Scalar{T: ufun(name, sorts, SStr, ts...), Ty: types.Typ[types.String]}, true
 	case "cachetag":
 		return intSV(ufun("ghost.cachetag", []string{SInt}, SInt, env.eval(n.Args[0]).(*PtrV).Addr)), true
 	case "old":
